@@ -58,7 +58,7 @@ def drive_module(rec, modkey, classes, F, rng, n, tag, b_lib=None):
     deg = F.k
 
     def L(Pt, scale=True, inf_rep=None):
-        return CG.to_lib(modkey, Pt, deg, rng, scale=CG.rand_scale(F, rng) if scale else None, inf_rep=inf_rep, classes=classes)
+        return CG.to_lib(modkey, Pt, deg, rng, scale=CG.rand_scale(F, rng) if scale else None, inf_rep=inf_rep, classes=classes, fq_coeffs=(classes is None and deg <= 2 and rng.random() < 0.1))
 
     def both(fn, mk_args, what):
         """call fn on two independently scaled presentations; results must represent the same point"""
